@@ -23,7 +23,7 @@ RULE = ("seeded designs x formula-based strategy x transport (in-process fake, f
         "non-trivial = >=2 rounds (or >=1 sampler call); distinct = (design skeleton, strategy, transport, peer)")
 ASSUMPTIONS = ["strict DIMACS reading: 'p cnf V C', clauses are zero-terminated, comment lines start with 'c'",
                "the fake CLI prints models in real CryptoMiniSat format (several 'v' lines, terminating 0)"]
-BUDGET = {"quick": 45, "thorough": 900}
+BUDGET = {"quick": 300, "thorough": 900}
 RUNS = {"quick": 3000, "thorough": 300000}
 
 
